@@ -99,6 +99,27 @@ Proof.
   destruct (in_net ph); cbn; repeat split; destruct alloc_pool, cur4; cbn; lia.
 Qed.
 
+(* the dataplane reports that the queued add of a live session failed: ANY state, any variant *)
+Theorem sb_fail_step_clean : forall v st i g q s,
+  queue st = (i, g) :: q -> nth_error (sl st) i = Some s -> gen s = g -> live s = true ->
+  exists s',
+    nth_error (sl (fst (step v st EvSbFail))) i = Some s' /\
+    live s' = false /\ ph s' = PTerminate /\
+    free (fst (step v st EvSbFail)) = free st + lease s /\
+    free6 (fst (step v st EvSbFail)) = add6 (free6 st) s /\
+    queue (fst (step v st EvSbFail)) = q.
+Proof.
+  intros v st i g q s Hq Hn Hg Hl. cbn [step]. rewrite Hq, Hn, Hg, Nat.eqb_refl.
+  unfold on_slot. cbn [sl nreq free queue free6]. rewrite Hn. unfold sb_fail. cbn [ms]. rewrite Hl.
+  eexists. split; [apply (nth_set_nth_eq _ _ _ _ _ Hn)|].
+  unfold lease, add6, terminate. destruct s.
+  cbn [ms mfree mfree6 mn mq mo Model.v6 Model.alloc_pool Model.cur4 Model.ph Model.live
+       upd emit set_live set_ph set_lcp set_ipcp set_ip6cp fst snd free free6 sl queue].
+  match goal with |- context [in_net ?p] => destruct (in_net p) end; cbn; repeat split;
+    match goal with |- context [alloc_pool] => idtac | _ => idtac end;
+    try (destruct alloc_pool, cur4; cbn; lia).
+Qed.
+
 (* a session that is out of the indexes stays out until the subscriber's next PADR *)
 Lemma ncp_act_live : forall i n a m, live (ms (ncp_act i n a m)) = live (ms m).
 Proof.
@@ -181,7 +202,7 @@ Proof.
     - subst j. rewrite Hn. cbn [fst sl]. eexists. split; [apply (nth_set_nth_eq _ _ _ _ _ Hn)|]. auto.
     - destruct (nth_error (sl st) j) as [sj|] eqn:Ej; cbn [fst sl]; exists s; split; auto.
       rewrite nth_set_nth_neq; auto. }
-  destruct e as [j|j f|k a|j t|j|j| |jh k a]; cbn [step].
+  destruct e as [j|j f|k a|j t|j|j| |jh k a| ]; cbn [step].
   - apply OS. intros E. subst j. congruence.
   - apply OS. intros E. cbn [ms]. rewrite Hl. auto.
   - destruct (find_idx (pend_matches v k) (sl st) 0) as [j|] eqn:Ef; [|exists s; auto].
@@ -196,6 +217,15 @@ Proof.
   - destruct (nth_error (sl st) jh) as [sj|]; [|exists s; auto].
     destruct (held_matches v k sj); [|exists s; auto].
     apply OS. intros E. apply aaa_apply_dead. exact Hl.
+  - destruct (queue st) as [|[j g] q]; [exists s; auto|].
+    destruct (nth_error (sl st) j) as [sj|]; [destruct (Nat.eqb (gen sj) g)|]; cbn [fst sl]; try (exists s; auto; fail).
+    assert (OS' : forall h, (j = i -> live (ms (h (mkM s (nreq st) (free st) q [] (free6 st)))) = false) ->
+               exists s', nth_error (sl (fst (on_slot (mkSt (sl st) (nreq st) (free st) q (free6 st)) j h))) i = Some s' /\ live s' = false).
+    { intros h Hh. unfold on_slot. cbn [sl nreq free queue free6]. destruct (Nat.eq_dec j i) as [E|E].
+      - subst j. rewrite Hn. cbn [fst sl]. eexists. split; [apply (nth_set_nth_eq _ _ _ _ _ Hn)|]. auto.
+      - destruct (nth_error (sl st) j) as [sj'|] eqn:Ej; cbn [fst sl]; exists s; split; auto.
+        rewrite nth_set_nth_neq; auto. }
+    apply OS'. intros E. unfold sb_fail. cbn [ms]. rewrite Hl. destruct (vsf v); cbn [emit ms]; exact Hl.
 Qed.
 
 Lemma dead_run : forall v evs st i s, nth_error (sl st) i = Some s -> live s = false ->
